@@ -169,9 +169,6 @@ theorem C13_nan_breaks_topk :
 
 /-! ### instance used by the driver: exact squared distances over ℚ -/
 
-def ratCmp (x y : Rat) : Option Ordering :=
-  if x < y then some .lt else if y < x then some .gt else some .eq
-
 theorem leD_ratCmp (x y : Rat) : leD ratCmp x y = true ↔ x ≤ y := by
   unfold leD ratCmp
   by_cases h1 : x < y
